@@ -65,7 +65,8 @@ static inline void perturb_point()
 //         slow to re-acquire the mutex: it unlocks it, runs the action, locks it again),
 //         bcast = pthread_cond_broadcast (in Signal::set) has returned; obj enq, deq or fut (the
 //         Signal of a Future); prebc = the thread is about to call pthread_cond_broadcast;
-//         job = a started function begins to run (obj fut, operand = its work code)
+//         job = a started function begins to run (obj fut, operand = its work code);
+//         cwait = the thread is about to call pthread_cond_wait (obj enq, deq or fut)
 //   obj   enq deq (FastSignal::_state resp. its Signal's condition variable), head tail (queue
 //         counters), nhead ntail (a slot's tickets), pushed processed, fut (anything else), *
 //   opnd  operand of the builtin (swap value, CAS new value) or *;  res: its result (post) or *
@@ -73,12 +74,14 @@ static inline void perturb_point()
 // Actions: hold <slot> [<timeout us>] (wait until the slot is released, at most the timeout), release <slot>,
 // sleep <us> [<permille>] (a targeted delay, taken with the given probability, default always),
 // await <slot> <n> (wait until n threads have been captured by holds on the slot),
-// slept <obj> <n> (wait until n threads have entered pthread_cond_wait of enq/deq since the mark).
+// slept <obj> <n> (wait until n threads have entered pthread_cond_wait of enq/deq since the mark),
+// spurious <permille> (at cwait only: with that probability pthread_cond_wait returns at once without
+// having been signalled - a spurious wake-up, which POSIX allows at any time).
 // Every wait gives up silently after G_TIMEOUT_US, so a gate can delay a case but never hang it.
 enum { G_MAXRULES = 32, G_MAXSLOTS = 8, G_TIMEOUT_US = 2000000 };
 enum { O_ANY = 0, O_ENQ, O_DEQ, O_HEAD, O_TAIL, O_PUSHED, O_PROCESSED, O_NHEAD, O_NTAIL, O_FUT, O_COUNT };
-enum { W_PRE = 1, W_POST = 2, W_WAKE = 3, W_BCAST = 4, W_PREBC = 5, W_JOB = 6 };
-enum { A_NONE = 0, A_HOLD, A_RELEASE, A_SLEEP, A_AWAIT, A_SLEPT };
+enum { W_PRE = 1, W_POST = 2, W_WAKE = 3, W_BCAST = 4, W_PREBC = 5, W_JOB = 6, W_CWAIT = 7 };
+enum { A_NONE = 0, A_HOLD, A_RELEASE, A_SLEEP, A_AWAIT, A_SLEPT, A_SPURIOUS };
 struct Rule {
   volatile int active;
   int who, when, obj, opnd_any, res_any, action;
@@ -92,6 +95,7 @@ static volatile int g_rules_on = 0;                 // number of rules armed in 
 static volatile long g_cw_entries[O_COUNT], g_cw_mark[O_COUNT];
 static volatile int g_gate_timeouts = 0;
 static __thread int tl_role = 0;                    // 0 worker, 1+k client k, 100 main
+static __thread int tl_spurious = 0;                // set by the action `spurious`
 static int g_trace = 0;
 
 static long long raw_us()
@@ -161,6 +165,7 @@ static void run_action(int id, Rule& r)
   case A_AWAIT:
     if(r.a1 >= 0 && r.a1 < G_MAXSLOTS) GATE_WAIT(__atomic_load_n(&g_slots[r.a1].captured, __ATOMIC_SEQ_CST) >= r.a2);
     break;
+  case A_SPURIOUS: if((long)((rng_next() >> 24) % 1000) < r.a1) tl_spurious = 1; break;
   case A_SLEPT:
     if(r.a1 > 0 && r.a1 < O_COUNT) GATE_WAIT(__atomic_load_n(&g_cw_entries[r.a1], __ATOMIC_SEQ_CST) - g_cw_mark[r.a1] >= r.a2);
     break;
@@ -218,6 +223,15 @@ extern "C" int __wrap_pthread_cond_wait(pthread_cond_t* c, pthread_mutex_t* m)
   // counted while the mutex is still held: whoever sees the count knows that a later Signal::set()
   // finds this thread waiting
   if(obj) __atomic_add_fetch(&g_cw_entries[obj], 1, __ATOMIC_SEQ_CST);
+  if(g_rules_on) {
+    tl_spurious = 0;
+    gate_point(W_CWAIT, obj ? obj : O_FUT, 0, 0);
+    if(tl_spurious) {            // spurious wake-up: the mutex is released and taken again, nobody signalled
+      tl_spurious = 0;
+      pthread_mutex_unlock(m); sched_yield(); pthread_mutex_lock(m);
+      return 0;
+    }
+  }
   int r = __real_pthread_cond_wait(c, m);
   if(obj && g_rules_on && any_match(W_WAKE, obj, 0, 0)) {
     pthread_mutex_unlock(m);
@@ -542,14 +556,14 @@ static void parse_gate(Op& o, vh::Tok& t)
     o.gid = atoi(t.v[4]);
     const char* w = t.v[5];
     r.who = !strcmp(w, "w") ? 0 : !strcmp(w, "m") ? 100 : w[0] == 'c' ? 1 + atoi(w + 1) : -1;
-    r.when = !strcmp(t.v[6], "pre") ? W_PRE : !strcmp(t.v[6], "post") ? W_POST : !strcmp(t.v[6], "wake") ? W_WAKE : !strcmp(t.v[6], "bcast") ? W_BCAST : !strcmp(t.v[6], "prebc") ? W_PREBC : !strcmp(t.v[6], "job") ? W_JOB : 0;
+    r.when = !strcmp(t.v[6], "pre") ? W_PRE : !strcmp(t.v[6], "post") ? W_POST : !strcmp(t.v[6], "wake") ? W_WAKE : !strcmp(t.v[6], "bcast") ? W_BCAST : !strcmp(t.v[6], "prebc") ? W_PREBC : !strcmp(t.v[6], "job") ? W_JOB : !strcmp(t.v[6], "cwait") ? W_CWAIT : 0;
     r.obj = obj_of(t.v[7]);
     r.opnd_any = !strcmp(t.v[8], "*"); r.opnd = atol(t.v[8]);
     r.res_any = !strcmp(t.v[9], "*"); r.res = atol(t.v[9]);
     r.count = atoi(t.v[10]);
     const char* a = t.v[11];
     r.action = !strcmp(a, "hold") ? A_HOLD : !strcmp(a, "release") ? A_RELEASE : !strcmp(a, "sleep") ? A_SLEEP
-             : !strcmp(a, "await") ? A_AWAIT : !strcmp(a, "slept") ? A_SLEPT : A_NONE;
+             : !strcmp(a, "await") ? A_AWAIT : !strcmp(a, "slept") ? A_SLEPT : !strcmp(a, "spurious") ? A_SPURIOUS : A_NONE;
     if(r.action == A_SLEPT) { r.a1 = t.n > 12 ? obj_of(t.v[12]) : 0; r.a2 = t.n > 13 ? atol(t.v[13]) : 1; }
     else { r.a1 = t.n > 12 ? atol(t.v[12]) : 0; r.a2 = t.n > 13 ? atol(t.v[13]) : (r.action == A_SLEEP ? 1000 : 1); }
     if(o.gid >= 0 && o.gid < G_MAXRULES && r.when && r.action) o.gverb = GV_RULE;
@@ -771,9 +785,10 @@ static void end(long c)
     // processed right after, and a shrink request still in the ring is on its way to a woken worker
     P::ThreadPool* tp = P::_threadPool;
     long long t0 = raw_us();
-    while(!(tp->_queue._head == tp->_queue._tail && tp->_processedJobs == tp->_pushedJobs) && raw_us() - t0 < 2000000) usleep(50);
+    static int quiet_failed = 0;      // once it has failed in this process the later cases wait 20 ms only
+    while(!(tp->_queue._head == tp->_queue._tail && tp->_processedJobs == tp->_pushedJobs) && raw_us() - t0 < (quiet_failed ? 20000 : 2000000)) usleep(50);
     if(tp->_queue._head == tp->_queue._tail && tp->_processedJobs == tp->_pushedJobs) printf("%ld quiet 1\n", c);
-    else printf("%ld quiet 0 head=%lu tail=%lu pushed=%lu processed=%lu\n", c, (unsigned long)tp->_queue._head, (unsigned long)tp->_queue._tail,
+    else if((quiet_failed = 1)) printf("%ld quiet 0 head=%lu tail=%lu pushed=%lu processed=%lu\n", c, (unsigned long)tp->_queue._head, (unsigned long)tp->_queue._tail,
                 (unsigned long)tp->_pushedJobs, (unsigned long)tp->_processedJobs);
   } else {
     printf("%ld pool pushed 0 tc_ok 1\n", c);
